@@ -8,7 +8,7 @@ import copy
 from ..cfg import build_cfg, calls_in, node_calls
 from ..core import Ctx, property_info, rule, share
 from ..model import AnalysisError, ClassInfo, FuncInfo, anon_text, walk_no_nested
-from ..q import Dispatch, passes, value_texts, func_text, call_param, reach_table, reach_env, node_containing, alternatives, control_deps, leaves_at, raw_forms, truthy_guard, flow_conditions, flows, forms, call_name_of, guarded_subscripts, names_from_calls, return_values, A, MUTATORS, asrc, is_self_attr, kwarg, root_name, stores, unparse
+from ..q import call_keywords, expand, Dispatch, passes, value_texts, func_text, call_param, reach_table, reach_env, node_containing, alternatives, control_deps, leaves_at, raw_forms, truthy_guard, flow_conditions, flows, forms, call_name_of, guarded_subscripts, names_from_calls, return_values, A, MUTATORS, asrc, is_self_attr, kwarg, root_name, stores, unparse
 
 SER = "xsdata.formats.dataclass.serializers"
 PAR = "xsdata.formats.dataclass.parsers"
@@ -213,8 +213,12 @@ def handler_sibling_agreement(ctx: Ctx) -> None:
                             be += [(t.id, m, lab) for m, lab in g.succ[t.id] if lab == "false"]
                     sinks = set(d.tests) | {r.id for r in g.returns()} | {g.exit}
                     reach = g.reachable([m for m, _ in g.succ[pend_nodes[0].id]], blocked=flush, blocked_edges=be, labels=lambda lab: lab != "exc")
+                    def _is_none(n_, v_) -> bool:  # None, directly or as the (only) value of a temporary / helper result
+                        lv = leaves_at(fi, n_, v_)
+                        return bool(lv) and all(isinstance(x, ast.Constant) and x.value is None for x in lv)
+
                     resets = [n.id for n in g.stmts() if isinstance(n.ast, ast.Assign) and len(n.ast.targets) == 1 and isinstance(n.ast.targets[0], ast.Name) and n.ast.targets[0].id == P
-                              and isinstance(n.ast.value, ast.Constant) and n.ast.value.value is None]
+                              and _is_none(n, n.ast.value)]
                     head = g.node_of(loop)
                     in_loop_flush = [f for f in flush if head is not None and head.id in g.reachable([f])]
                     reset_ok = all(g.must_pass(f, head.id, resets + [pend_nodes[0].id]) for f in in_loop_flush) if head is not None else False
@@ -257,7 +261,7 @@ def handler_sibling_agreement(ctx: Ctx) -> None:
         if isinstance(tgt, ast.Name):
             defs.setdefault(tgt.id, []).append(v)
     fresh = {n for n, vs in defs.items() if vs and all(_is_fresh(v) for v in vs)}
-    parent_names = {n for n, vs in defs.items() if any(v is not None and unparse(v) == "self.queue[-1].ns_map" for v in vs)}
+    parent_names = {n for n, vs in defs.items() if any(v is not None and unparse(expand(mp.node, v)) == "self.queue[-1].ns_map" for v in vs)}
     muts: list[tuple[ast.AST, str | None]] = []
     for st, tgt, v in stores(mp.node):
         if isinstance(tgt, ast.Subscript):
@@ -267,13 +271,16 @@ def handler_sibling_agreement(ctx: Ctx) -> None:
             muts.append((c, root_name(c.func.value)))
     ctx.ob("merge_parent_namespaces never writes into the parent's map or the caller's map (mutations only on a fresh dict)", all(r in fresh for _, r in muts), at=mp,
            construct="merge no aliasing", msg=f"mutation of {[r for _, r in muts if r not in fresh]}: child declarations would leak into the parent / siblings")
-    from_parent = any(v is not None and any(isinstance(x, ast.Call) and ((isinstance(x.func, ast.Attribute) and x.func.attr == "copy" and root_name(x.func.value) in parent_names)
-                                                                             or (isinstance(x.func, ast.Name) and x.func.id == "dict" and x.args and root_name(x.args[0]) in parent_names)) for x in ast.walk(v))
+    def _is_parent_map(e: ast.expr) -> bool:
+        return root_name(e) in parent_names or unparse(expand(mp.node, e)) == "self.queue[-1].ns_map"
+
+    from_parent = any(v is not None and any(isinstance(x, ast.Call) and ((isinstance(x.func, ast.Attribute) and x.func.attr == "copy" and _is_parent_map(x.func.value))
+                                                                             or (isinstance(x.func, ast.Name) and x.func.id == "dict" and x.args and _is_parent_map(x.args[0]))) for x in ast.walk(v))
                       for n in fresh for v in defs[n])
     own_in = any((isinstance(m, ast.Call) and m.func.attr == "update" and m.args and root_name(m.args[0]) == "ns_map") for m, _ in muts) or any(
         isinstance(n, ast.For) and "ns_map" in unparse(n.iter) and any(isinstance(x, ast.Subscript) and isinstance(x.ctx, ast.Store) and root_name(x) in fresh for x in ast.walk(n)) for n in walk_no_nested(mp.node))
     rv = [v for r in g.returns() for v in alternatives(mp.node, r.ast.value)]
-    ret_ok = bool(rv) and all((isinstance(v, ast.Name) and (v.id in fresh or v.id in parent_names)) or _is_fresh(v) or unparse(v) == "self.queue[-1].ns_map" for v in rv)
+    ret_ok = bool(rv) and all((isinstance(v, ast.Name) and (v.id in fresh or v.id in parent_names)) or _is_fresh(v) or unparse(expand(mp.node, v)) == "self.queue[-1].ns_map" for v in rv)
     ctx.ob("merge_parent_namespaces: result = copy of the parent node's map overridden by the element's own declarations", from_parent and own_in and ret_ok, at=mp, construct="merge semantics",
            msg="parent bindings lost or the parent's map mutated")
     ev_n = ctx.repo.module(f"{PAR}.handlers.native").globals.get("EVENTS")
@@ -314,25 +321,30 @@ def comment_pi_options(ctx: Ctx) -> None:
         name = unparse(c.func)
         if name in ("etree.iterparse", "etree.XMLParser"):
             n += 1
+            kws, complete = call_keywords(fi, c)
+            if not complete:
+                ctx.abstain(f"options of {name}(...)", at=fi, why="keyword arguments are packed in a value of unknown shape")
+                continue
             for opt in ("remove_comments", "remove_pis"):
-                v = kwarg(c, opt)
+                v = kws.get(opt)
                 ctx.ob(f"{name}({opt}=True)", isinstance(v, ast.Constant) and v.value is True, at=fi, node=c, construct=f"{name} {opt}",
                        msg=f"{opt} is not set: comments / PIs stay in the tree and cut element.text, unlike the native handler (<v>foo<?pi x?>bar</v> -> 'foo')")
             # options that drop or alter character data relative to expat (trusted table of lxml parser options)
             harmful = {"resolve_entities": True, "remove_blank_text": False, "strip_cdata": True, "attribute_defaults": False}
             benign = {"events", "recover", "remove_comments", "remove_pis", "load_dtd", "huge_tree", "no_network", "encoding", "collect_ids", "dtd_validation", "schema",
                       "compact", "ns_clean", "base_url", "tag", "html", "source"}
-            for k in c.keywords:
-                if k.arg in harmful:
-                    want = harmful[k.arg]
-                    ctx.ob(f"{name}({k.arg}=...) keeps the library default ({want})", isinstance(k.value, ast.Constant) and k.value.value is want, at=fi, node=c, construct=f"{name} {k.arg}",
-                           msg=f"{k.arg}={unparse(k.value)} makes lxml deliver other character data than expat for the same document (e.g. general entities of the internal subset no longer expanded)")
-                elif k.arg is not None and k.arg not in benign:
-                    ctx.ob(f"{name}({k.arg}=...) is a classified parser option", False, at=fi, node=c, construct=f"{name} {k.arg}", msg="unclassified lxml parser option: its effect on the infoset is unknown to the checker")
+            for karg, kval in kws.items():
+                if karg in harmful:
+                    want = harmful[karg]
+                    ctx.ob(f"{name}({karg}=...) keeps the library default ({want})", isinstance(kval, ast.Constant) and kval.value is want, at=fi, node=c, construct=f"{name} {karg}",
+                           msg=f"{karg}={unparse(kval)} makes lxml deliver other character data than expat for the same document (e.g. general entities of the internal subset no longer expanded)")
+                elif karg not in benign:
+                    ctx.ob(f"{name}({karg}=...) is a classified parser option", False, at=fi, node=c, construct=f"{name} {karg}", msg="unclassified lxml parser option: its effect on the infoset is unknown to the checker")
         elif name in ("etree.parse", "etree.fromstring", "etree.XML"):
             n += 1
             p = kwarg(c, "parser")
-            ok = isinstance(p, ast.Name) and p.id in parsers_local
+            # a parser constructed in this function (its options are checked above), named or written in place
+            ok = p is not None and bool(leaves_at(fi, c, p)) and all(isinstance(x, ast.Call) and unparse(x.func) == "etree.XMLParser" for x in leaves_at(fi, c, p))
             ctx.ob(f"{name}(parser=<parser that removes comments and PIs>)", ok, at=fi, node=c, construct=f"{name} parser", msg="the default lxml parser keeps comments and processing instructions")
     ctx.floor("lxml parser constructions", n, 3)
     # the native handler relies on ElementTree's default TreeBuilder (drops comments and PIs): no custom TreeBuilder / parser argument
@@ -387,9 +399,10 @@ def one_event_generator(ctx: Ctx) -> None:
         ctx.ob(f"{ci.name} overrides no event-generator method", not over, at=ci.methods.get("render") or eg.methods["generate"], construct=f"{ci.name} overrides", msg=f"overrides {over}")
     xs = ctx.repo.func(f"{SER}.xml:XmlSerializer.write")
     ts = ctx.repo.func(f"{SER}.tree:TreeSerializer.render")
-    kx = [sorted({unparse(x) for x in leaves_at(xs, c, kwarg(c, "ns_map"))}) for c in calls_in(xs.node) if kwarg(c, "ns_map") is not None]
-    kt = [sorted({unparse(x) for x in leaves_at(ts, c, kwarg(c, "ns_map"))}) for c in calls_in(ts.node) if kwarg(c, "ns_map") is not None]
-    ctx.ob("both serializers prepare the user prefix map the same way (same set of possible values)", kx == kt and len(kx) == 1, at=xs, construct="ns_map preparation", msg=f"{kx} vs {kt}")
+    # the set of values that can reach the writer's ns_map, over every construction site (one per branch when the choice is an if/else)
+    kx = sorted({unparse(x) for c in calls_in(xs.node) if kwarg(c, "ns_map") is not None for x in leaves_at(xs, c, kwarg(c, "ns_map"))})
+    kt = sorted({unparse(x) for c in calls_in(ts.node) if kwarg(c, "ns_map") is not None for x in leaves_at(ts, c, kwarg(c, "ns_map"))})
+    ctx.ob("both serializers prepare the user prefix map the same way (same set of possible values)", kx == kt and bool(kx), at=xs, construct="ns_map preparation", msg=f"{kx} vs {kt}")
     ctx.ob("both serializers feed self.generate(obj) to the writer", all(any(unparse(c) == "self.generate(obj)" for c in calls_in(f_.node)) for f_ in (xs, ts)), at=xs, construct="generate(obj)", msg="a serializer builds events differently")
     ctx.ob("both serializers pass self.config to the backend", all(unparse(kwarg(c, "config") or ast.Constant(0)) == "self.config" for fi in (xs, ts) for c in calls_in(fi.node) if kwarg(c, "config") is not None), at=ts, construct="config passed",
            msg="backend built with another config")
@@ -509,12 +522,15 @@ def prefixes_resolved_never_matched(ctx: Ctx) -> None:
     rv = [v for v in return_values(xt.node) if not (isinstance(v, ast.Constant) and v.value is None)]
     parts = names_from_calls(xt.node, ("resolve",))
     ok = bool(res_calls) and all(len(c.args) == 2 and unparse(c.args[1]) == "ns_map" for c in res_calls) and bool(rv) and all(
-        isinstance(v, ast.Call) and call_name_of(v) == "build_qname" and all(root_name(a) in parts or any(isinstance(x, ast.Call) and call_name_of(x) == "resolve" for x in ast.walk(a)) for a in v.args) and len(v.args) == 2 for v in rv)
+        isinstance(v, ast.Call) and call_name_of(v) == "build_qname" and all(root_name(a.value if isinstance(a, ast.Starred) else a) in parts or any(isinstance(x, ast.Call) and call_name_of(x) == "resolve" for x in ast.walk(a)) for a in v.args)
+        and (len(v.args) == 2 or (len(v.args) == 1 and isinstance(v.args[0], ast.Starred))) for v in rv)  # build_qname(ns, name) / build_qname(*resolve(...))
     ctx.ob("ParserUtils.xsi_type resolves the lexical xsi:type through QNameConverter.resolve(value, ns_map) and returns the qualified name", ok, at=xt,
            construct="xsi:type resolution", msg="xsi:type compared as a lexical (prefix-dependent) string")
     pa = ctx.repo.func(f"{PAR}.utils:ParserUtils.parse_any_attribute")
     subs = guarded_subscripts(pa.node, "ns_map")
-    ctx.ob("parse_any_attribute expands a prefix only when it is bound in ns_map", bool(subs) and all(ok for _, ok in subs), at=pa, construct="any attribute prefix",
+    # (ns_map.get(prefix[, sentinel]) cannot raise: with no subscript at all, a get-lookup is the bound test)
+    got = [c for c in calls_in(pa.node) if isinstance(c.func, ast.Attribute) and c.func.attr == "get" and unparse(c.func.value) == "ns_map"]
+    ctx.ob("parse_any_attribute expands a prefix only when it is bound in ns_map", (bool(subs) and all(ok for _, ok in subs)) or (not subs and bool(got)), at=pa, construct="any attribute prefix",
            msg="ns_map[prefix] is read without a dominating `prefix in ns_map` test: an unbound prefix raises KeyError / is expanded wrongly")
     # field lookup is by qualified name only
     meta = ctx.repo.cls("xsdata.formats.dataclass.models.elements:XmlMeta")
